@@ -149,7 +149,8 @@ fn run_property(root: &str, prop: &Property, strict: &Property, others: &[Proper
         .map(|rd| rd.filter_map(|e| e.ok()).map(|e| e.path().to_string_lossy().to_string()).filter(|p| p.ends_with(".json")).collect())
         .unwrap_or_default();
     files.sort();
-    let open_witnesses: HashSet<String> = known.iter().filter(|k| k.is_open()).filter_map(|k| k.witness.clone()).map(|w| format!("{}/{}", root, w)).collect();
+    // witnesses of findings (open in this or in the other build profile) are not ordinary regressions
+    let open_witnesses: HashSet<String> = known.iter().filter(|k| k.status == "finding").filter_map(|k| k.witness.clone()).map(|w| format!("{}/{}", root, w)).collect();
     for f in &files {
         if open_witnesses.contains(f) {
             continue;
@@ -201,8 +202,13 @@ fn run_property(root: &str, prop: &Property, strict: &Property, others: &[Proper
     }
     // 3. generated search
     let mode = if prop.panic_is_violation { Mode::PanicIsViolation } else { Mode::Normal };
-    let parts: Vec<&Box<dyn PartDyn>> = prop.parts.iter().collect();
-    let mut rep = run_parts(prop.id, &parts, tier, seed, mode, known, 1.0, &prop.min_class_fraction);
+    // RQV_ONLY_PARTS / RQV_SCALE: run a subset of the parts at a fraction of the budget (used for the
+    // second, unchecked-profile pass of C18)
+    let only: Option<Vec<String>> = std::env::var("RQV_ONLY_PARTS").ok().map(|v| v.split(',').map(|s| s.to_string()).collect());
+    let scale: f64 = std::env::var("RQV_SCALE").ok().and_then(|v| v.parse().ok()).unwrap_or(1.0);
+    let parts: Vec<&Box<dyn PartDyn>> = prop.parts.iter().filter(|p| only.as_ref().map_or(true, |o| o.iter().any(|n| n == p.name()))).collect();
+    let health: Vec<(&'static str, &'static str, f64)> = if scale < 1.0 { vec![] } else { prop.min_class_fraction.clone() };
+    let mut rep = run_parts(prop.id, &parts, tier, seed, mode, known, scale, &health);
     let mut sweep_note = json!(null);
     if prop.id == "C07" && rep.stats.failure.is_none() {
         // C07 also sweeps every other property's generator with the oracle "no library panic"
